@@ -851,7 +851,7 @@ impl Add for Time {
 
     fn add(self, rhs: Self) -> Self::Output {
         Time {
-            nanoseconds: self.nanoseconds + rhs.nanoseconds,
+            nanoseconds: (self.nanoseconds + rhs.nanoseconds) % NANOS_PER_DAY,
             offset: self.offset,
         }
     }
@@ -867,7 +867,7 @@ impl Sub for Time {
 
     fn sub(self, rhs: Self) -> Self::Output {
         Time {
-            nanoseconds: self.nanoseconds - rhs.nanoseconds,
+            nanoseconds: (self.nanoseconds + NANOS_PER_DAY - rhs.nanoseconds) % NANOS_PER_DAY,
             offset: self.offset,
         }
     }
